@@ -394,6 +394,7 @@ class Model:
             tree = normalize.default_idiom(tree)
             normalize.with_form(tree)
             normalize.search_loops(tree)
+            normalize.unpack_form(tree)
             ref = _reference()
             if ref is not None and not os.environ.get('VERIF_NO_NORMALIZE'):
                 from . import inline
